@@ -6,7 +6,9 @@ From Coq Require Import List.
 From SJ Require Import Model.Base Model.RefTables Model.Ring Proofs.RingProofs Model.Reuse Proofs.ReuseProofs Tie.PipelineTie Tie.GoTablesTie.
 
 (* the channel is empty whenever both stages are done: every schedule, success
-   and failure *)
+   and failure of either stage -- including a stage 1 that sends the terminator
+   while withholding the buffer it found the error in (that buffer never
+   enters the channel) *)
 Theorem C15_channel_empty_after_every_call : forall S CAP n evs s,
   Ring.run S CAP (Ring.init n) evs = Some s -> Ring.final s = true -> Ring.queue s = [] /\ Ring.filling s = None /\ Ring.held s = None.
 Proof. intros S CAP n evs s H F. destruct (ring_final_empty S CAP n evs s H F) as (A & B & _ & D & _). exact (conj A (conj B D)). Qed.
@@ -23,6 +25,9 @@ Proof. exact reuse_independent. Qed.
    invariant is re-established, given that a call ends with both stages done
    (the premise is the ring theorem's conclusion) *)
 Definition C15_reuse_many := reuse_many.
+(* the sequential path when stage 1 leaves its loop before sending the buffer
+   it failed in: n sent, one abandoned, drained; channel empty *)
+Definition C15_seq_stage1_abandon_clean := seq_fail1_abandon_clean.
 (* stale contents of the ring buffers are never read *)
 Definition C15_stale_ring_never_read := stale_ring_never_read.
 
